@@ -1,6 +1,6 @@
 (* C04 — integrator assembly: theorems claimed. *)
-From Coq Require Import List Arith ZArith PeanoNat Bool Reals.
-From LV Require Import Base.NumOps Base.Cart Base.RInst Api.ApiModel Api.ApiProofs.
+From Coq Require Import List Arith ZArith PeanoNat Bool Reals Lia Lra.
+From LV Require Import Base.NumOps Base.Cart Base.RInst Api.ApiModel Api.ApiProofs Api.ApiHess.
 Import ListNotations.
 
 (* H_START packing: enumerating the documented slot order (i ascending; (i,i) with six
@@ -38,3 +38,51 @@ Print Assumptions C04_assign_ids_spec.
 
 Example C04_example_packing : map (packed 2) (slots 2) = seq 0 21 /\ hpair 0 1 2 = 6 /\ hdiag 1 2 = 15.
 Proof. vm_compute. repeat split. Qed.
+
+(* Hessian scatter: what compute_second_derivs adds to the packed slot of ((X,p),(Y,q)), X <= Y, for one
+   (shellA, shellB, ECP) triple is the sum of the blocks D t P Q p q over all ordered pairs of centre labels
+   (P, Q in A, B, C) with P on atom X and Q on atom Y -- for every number of atoms, every atom assignment,
+   every slot.  Three cases cover all assignments (the fourth, all on one atom, adds nothing). *)
+Theorem C04_hess_scatter_distinct : forall N Aix Bix Cix X Y p q (t : nat -> R) acc,
+  Aix < N -> Bix < N -> Cix < N -> Aix <> Bix -> Aix <> Cix -> Bix <> Cix ->
+  X <= Y -> Y < N -> p < 3 -> q < 3 -> (X = Y -> p <= q) ->
+  apply_upds ROps (packed N (slot_of X Y p q)) acc (updates2 N Aix Bix Cix t)
+  = Rplus acc (hess_spec [0; 1; 2] (atom_of Aix Bix Cix) t X Y p q).
+Proof. exact hess_scatter_distinct. Qed.
+Print Assumptions C04_hess_scatter_distinct.
+
+Theorem C04_hess_scatter_AeqB : forall N Aix Cix X Y p q (t : nat -> R) acc,
+  Aix < N -> Cix < N -> Aix <> Cix ->
+  X <= Y -> Y < N -> p < 3 -> q < 3 -> (X = Y -> p <= q) ->
+  apply_upds ROps (packed N (slot_of X Y p q)) acc (updates2 N Aix Aix Cix t)
+  = Rplus acc (hess_spec [0; 1; 2] (atom_of Aix Aix Cix) t X Y p q).
+Proof. exact hess_scatter_AeqB. Qed.
+Print Assumptions C04_hess_scatter_AeqB.
+
+(* ECP on the atom of one shell: the blocks are those of the joint displacement and only AA, AB, BB are read *)
+Theorem C04_hess_scatter_coincident : forall N Aix Bix Cix X Y p q (t : nat -> R) acc,
+  Aix < N -> Bix < N -> Aix <> Bix -> (Cix = Aix \/ Cix = Bix) ->
+  X <= Y -> Y < N -> p < 3 -> q < 3 -> (X = Y -> p <= q) ->
+  apply_upds ROps (packed N (slot_of X Y p q)) acc (updates2 N Aix Bix Cix t)
+  = Rplus acc (hess_spec [0; 1] (atom_of Aix Bix Cix) t X Y p q).
+Proof. exact hess_scatter_coincident. Qed.
+Print Assumptions C04_hess_scatter_coincident.
+
+Theorem C04_hess_scatter_all_coincident : forall N Aix (t : nat -> R), updates2 N Aix Aix Aix t = [].
+Proof. exact hess_scatter_all_coincident. Qed.
+Print Assumptions C04_hess_scatter_all_coincident.
+
+(* every index written is a packed Hessian index *)
+Theorem C04_hess_scatter_range : forall N Aix Bix Cix (t : nat -> R),
+  Aix < N -> Bix < N -> Cix < N ->
+  Forall (fun u => fst u < 3 * N * (3 * N + 1) / 2) (updates2 N Aix Bix Cix t).
+Proof. exact hess_scatter_range. Qed.
+Print Assumptions C04_hess_scatter_range.
+
+(* non-vacuity: a concrete assignment, slot and block function *)
+Example C04_example_scatter :
+  apply_upds ROps (packed 3 (slot_of 0 2 1 2)) 0%R (updates2 3 2 0 1 (fun i => INR i)) = INR (6 + 3 * 2 + 1).
+Proof.
+  rewrite (hess_scatter_distinct 3 2 0 1 0 2 1 2) by lia.
+  unfold hess_spec, atom_of, ind, D. cbn [flat_map map app fold_right nth Nat.eqb andb]. cbn. lra.
+Qed.
